@@ -24,18 +24,37 @@ def _model_to_dict(m):
     return out
 
 
+WALL_FACTOR = 8.0
+
+
+def _cpu_limit(seconds):
+    import math
+    import resource
+    lim = max(1, int(math.ceil(seconds)))
+    try:
+        resource.setrlimit(resource.RLIMIT_CPU, (lim, lim + 2))
+    except (ValueError, OSError):
+        pass
+
+
 def _smt_worker(ob, expect, timeout_ms, conn, tactic):
     """runs in a forked child: the obligation's z3 terms live in the (copied) parent context"""
     t0 = time.time()
     try:
+        # The budget is CPU time of this worker (RLIMIT_CPU), so that a verdict does not depend on how busy the other
+        # cores are; the solver's own wall-clock timeout is only a generous backstop.
+        _cpu_limit(timeout_ms / 1000.0)
+        wall_ms = int(timeout_ms * WALL_FACTOR)
         if isinstance(ob, str):
             ctx = z3.Context()
             s = z3.Solver(ctx=ctx)
-            s.set("timeout", timeout_ms)
+            s.set("timeout", wall_ms)
             s.from_string(ob)
         else:
             s = z3.Tactic(tactic).solver() if tactic else z3.Solver()
-            s.set("timeout", timeout_ms)
+            s.set("timeout", wall_ms)
+            if ob.meta.get("random_seed") is not None:
+                s.set("smt.random_seed", int(ob.meta["random_seed"]))
             if ob.meta.get("mbqi") is False:
                 # E-matching only: sound for proving (unsat stays unsat); 'sat'/'unknown' answers are discarded
                 s.set("auto_config", False)
@@ -57,9 +76,11 @@ def _smt_worker(ob, expect, timeout_ms, conn, tactic):
         conn.close()
 
 
-def _poly_worker(ob_repr, conn):
+def _poly_worker(ob_repr, conn, cpu_s=None):
     t0 = time.time()
     try:
+        if cpu_s:
+            _cpu_limit(cpu_s)
         if isinstance(ob_repr, tuple) and ob_repr and ob_repr[0] == "POSCOEF":
             ok, detail = cas.check_poscoef(ob_repr[1:])
         else:
@@ -83,8 +104,9 @@ def _cvc5(smt2, timeout_s):
         f.write(txt)
         path = f.name
     try:
-        p = subprocess.run(["/usr/bin/cvc5", "--tlimit=%d" % int(timeout_s * 1000), path],
-                           capture_output=True, text=True, timeout=timeout_s + 5)
+        p = subprocess.run(["/usr/bin/cvc5", "--tlimit=%d" % int(timeout_s * WALL_FACTOR * 1000), path],
+                           capture_output=True, text=True, timeout=timeout_s * WALL_FACTOR + 5,
+                           preexec_fn=lambda: _cpu_limit(timeout_s))
         out = p.stdout.strip().splitlines()
         return out[0] if out else None
     except Exception:
@@ -115,7 +137,7 @@ def discharge(obls, budget_s=20.0, jobs=None, progress=None):
     def launch(ob, kind, payload, stage):
         parent, child = ctx.Pipe(duplex=False)
         if kind == "poly":
-            p = ctx.Process(target=_poly_worker, args=(payload, child))
+            p = ctx.Process(target=_poly_worker, args=(payload, child, budget_s * 3))
         else:
             tactic = ob.meta.get("tactic") if stage == 0 else None
             b_ = min(budget_s, 3.0) if ob.kind in ("cover", "canary") else (min(budget_s, 6.0) if ob.meta.get("finding_witness") else budget_s)
@@ -184,9 +206,9 @@ def discharge(obls, budget_s=20.0, jobs=None, progress=None):
                 done += 1
             elif not p.is_alive():
                 running.remove(item)
-                finish(ob, {"result": "error", "reason": "worker exited"}, kind, payload)
+                finish(ob, {"result": "unknown", "reason": "CPU budget exhausted (or worker exited)", "time": time.time() - t0}, kind, payload)
                 done += 1
-            elif time.time() - t0 > budget_s * 1.5 + 5:
+            elif time.time() - t0 > budget_s * WALL_FACTOR + 10:
                 p.terminate()
                 p.join()
                 running.remove(item)
